@@ -165,6 +165,16 @@ fn run(input: RunInput) -> ScenFuture {
                         }
                     })
                 };
+                // a second plain dial of the same endpoint exercises TLS session resumption (the
+                // shared client configuration caches sessions per server name)
+                if role == 1 && r.gen_bool(0.5) {
+                    if let Ok(pid) = h.net.connect(adv.addr).await {
+                        check_id(&w, Some(pid), adv_id, "dial-returned-identity-the-remote-does-not-hold", &format!("first of two dials, strategy {strat}"));
+                        let _ = h.net.disconnect(pid);
+                        sleep_ms(r.gen_range(0..100)).await;
+                        w.probe("repeated-dial(resumption-path)");
+                    }
+                }
                 let res = match role {
                     1 => h.net.connect(adv.addr).await,
                     2 => h.net.connect_with_peer_id(adv.addr, x_id).await,
